@@ -155,6 +155,14 @@ class CallMixin:
         ps, rs, fvs = self.sig_names(c, g, sig)
         if recv_iface:
             ps = [('recv', ins['iface'])] + ps
+        elif g is None and len(args) == len(ps) + 1 and 'callee' in ins and ins['callee'].get('k') == 'func' and ins['callee']['name'].startswith('('):
+            # method of an external type: the receiver is the first argument
+            nm_ = ins['callee']['name']
+            rt_ = nm_[1:nm_.index(')')]
+            pn_ = c.flags.get('params', '').split()
+            _, d_ = self.p.under(sig) if sig else (None, {})
+            pts_ = d_.get('params', [])
+            ps = [(pn_[0] if pn_ else 'recv', rt_)] + [(pn_[i + 1] if i + 1 < len(pn_) else 'arg%d' % i, t) for i, t in enumerate(pts_)]
         vars = {}
         for (n, t), a in zip(ps, args): vars[n] = (a, t)
         if bind is not None:
@@ -196,6 +204,11 @@ class CallMixin:
         for txt, ast in c.assumes:
             pass
         rv = None if not res else (res[0] if len(res) == 1 else TupleV(res))
+        # vacuity guard: the assumed postcondition must not contradict the path (a contradiction would hide everything after the call)
+        if fr is not None:
+            o = Obl('%s/reach/after-call/%s' % (self.cur, cname) + ('#%d' % self.site_ord(fr.fn, site[0], site[1], self.instr_sig(site[2])) if site and site[2].get('op') in ('Call', 'Go', 'Defer') else ''), 'reachcall', list(st.pc), BoolVal(False), list(st.trace), ins.get('pos', ''), 'postcondition of %s is consistent with the path' % cname)
+            o.expect = 'sat'
+            self.obls.append(o)
         if 'maypanic' in c.flags and not self.opts.get('nopanic'):
             # the callee may panic instead of returning: run the caller's deferred calls from the pre-state
             s3 = old.copy()
@@ -246,8 +259,6 @@ class CallMixin:
                 st.havoc_at(key, idx)
             return
         for key in self.mod_entry_keys(e, g, c):
-            if key not in st.sorts:
-                continue
             st.havoc(key)
 
     # ------------------------------------------------------------------ rely (interference on shared atomics)
